@@ -35,6 +35,7 @@ func init() {
 			{ID: "C03.12", Desc: "a port is left out of the key only when it is the default of the URI's own scheme (http://h:443/ is not http://h/)", Run: func(c *Ctx) { rulePortDefaultByScheme(c, "C03.12") }, MinSites: 1},
 			{ID: "C03.13", Desc: "the port enters the key as it is written (:0 is not \"no port\")", Run: func(c *Ctx) { rulePortAsWritten(c, "C03.13") }, MinSites: 1},
 			{ID: "C03.14", Desc: "the host enters the key as it is written (a trailing dot is part of it)", Run: func(c *Ctx) { ruleHostAsWritten(c, "C03.14") }, MinSites: 1},
+			{ID: "C03.15", Desc: "every index read and write reachable from RoundTrip uses the result of the URL key function as its key", Run: func(c *Ctx) { ruleIndexKeyIsURLKey(c, "C03.15") }, MinSites: 3},
 		},
 	})
 }
